@@ -458,7 +458,7 @@ func (y *Sys) allAckedAndDelivered(h *upH) bool {
 			return false
 		}
 	}
-	for _, l := range y.s.Net.Links {
+	for _, l := range y.allLinks() {
 		if l.PendingB2C() > 0 || l.PendingC2B() > 0 {
 			return false
 		}
@@ -490,7 +490,7 @@ func (y *Sys) teardown() {
 		go func() { defer close(done); y.Conn.Close(context_bg()) }()
 		s.Wait()
 	}
-	for _, l := range s.Net.Links {
+	for _, l := range y.allLinks() {
 		l.Kill(errEOF, errClosed)
 	}
 	s.Wait()
